@@ -1,8 +1,12 @@
-(* C05 - placeholder until FrameProofs.v lands: the accessor theorems are already proved. *)
+(* C05 - every frame the host builds is well-formed and decodes back to itself.
+   Only statements, closed by `exact`, with Print Assumptions beneath. *)
 From Coq Require Import NArith List.
-From ZB Require Import Base.Bytes Base.Bits Link.LLHeader Link.LLHeaderGen.
+From ZB Require Import Base.Bytes Base.Bits Link.LLHeader Link.LLHeaderGen Link.LinkSpec Link.LinkSpecProofs Link.Frame Link.Rx
+  Link.FrameProofs gen.GenBitfields.
+Import ListNotations.
 Open Scope N_scope.
 
+(* header bit-fields: changing one never alters another; reading back gives the written value *)
 Theorem C05_ll_field_readback : forall f h v, ll_get f (ll_with f h v) = v mod 2 ^ ll_w f.
 Proof. exact ll_get_with_same. Qed.
 Print Assumptions C05_ll_field_readback.
@@ -15,3 +19,60 @@ Print Assumptions C05_hl_field_readback.
 Theorem C05_hl_fields_independent : forall f g h v, f <> g -> h < 2 ^ 32 -> hl_get f (hl_with g h v) = hl_get f h.
 Proof. exact hl_get_with_other. Qed.
 Print Assumptions C05_hl_fields_independent.
+
+(* Tie A(ii): the accessors as translated from the source text are these canonical accessors *)
+Theorem C05_source_accessors_are_canonical :
+  agrees1 ll_get_signature (ll_get LSig) /\ agrees1 ll_get_size (ll_get LSize) /\ agrees1 ll_get_frame_type (ll_get LType) /\
+  agrees1 ll_get_flags (ll_get LFlags) /\
+  agrees2 ll_with_signature (ll_with LSig) /\ agrees2 ll_with_size (ll_with LSize) /\ agrees2 ll_with_type (ll_with LType) /\
+  agrees2 ll_with_flags (ll_with LFlags) /\ agrees2 ll_with_crc8 (ll_with LCrc8) /\
+  agrees1 hl_get_version (hl_get HVersion) /\ agrees1 hl_get_control_type (hl_get HType) /\ agrees1 hl_get_id (hl_get HId) /\
+  agrees2 hl_with_version (hl_with HVersion) /\ agrees2 hl_with_type (hl_with HType) /\ agrees2 hl_with_id (hl_with HId).
+Proof.
+  exact (conj gen_ll_get_signature (conj gen_ll_get_size (conj gen_ll_get_type (conj gen_ll_get_flags
+        (conj gen_ll_with_signature (conj gen_ll_with_size (conj gen_ll_with_type (conj gen_ll_with_flags
+        (conj gen_ll_with_crc8 (conj gen_hl_get_version (conj gen_hl_get_type (conj gen_hl_get_id
+        (conj gen_hl_with_version (conj gen_hl_with_type gen_hl_with_id)))))))))))))).
+Qed.
+Print Assumptions C05_source_accessors_are_canonical.
+
+(* the independent decoder inverts the format on every well-formed frame value *)
+Theorem C05_spec_codec_inverse : forall w r, wf w -> spec_decode (spec_encode w ++ r) = Some (w, r).
+Proof. exact spec_decode_encode. Qed.
+Print Assumptions C05_spec_codec_inverse.
+
+(* every command frame (any command header, any payload that fits the 16-bit length, any packet
+   sequence number): length field = bytes after the marker, well-formed, the independent decoder and
+   the library's decoder recover header fields, command header and payload, consuming exactly the frame *)
+Theorem C05_command_frames : forall h d seq F r, to_frame h d = Some F ->
+  h <> 0 -> h < 2 ^ 32 -> bytes_ok d -> seq < 4 -> N.of_nat (length d) + 11 < 65536 ->
+  let b := serialize (stamp seq F) in
+  let w := mk_w (N.of_nat (length d) + 11) (N.lor (N.shiftl seq 2) 192) (Some h) d in
+  wf w /\ b = spec_encode w /\ N.of_nat (length b) = 2 + w_size w /\
+  spec_decode (b ++ r) = Some (w, r) /\ extract_frame_x (b ++ r) = XF w (length b).
+Proof. exact command_frame_wellformed. Qed.
+Print Assumptions C05_command_frames.
+
+(* every stamped data frame or fragment with the flags the code uses (none / first / last / both) *)
+Theorem C05_data_frames_and_fragments : forall seq fl0 hdr data size, seq < 4 -> data_flags_ok fl0 -> bytes_ok data ->
+  (fl_first fl0 = true -> exists h, hdr = Some h /\ h <> 0 /\ h < 2 ^ 32) ->
+  (fl_first fl0 = false -> hdr = None) ->
+  size = 7 + N.of_nat (length (hl_body {| hl_hdr := hdr; hl_data := data |})) -> size < 65536 ->
+  let w := mk_w size (N.lor (N.shiftl seq 2) fl0) hdr data in
+  serialize (stamp seq {| fr_ll := ll_build size fl0; fr_hl := Some {| hl_hdr := hdr; hl_data := data |} |})
+    = spec_encode w /\ wf w.
+Proof. exact stamped_data_frame. Qed.
+Print Assumptions C05_data_frames_and_fragments.
+
+(* every acknowledgement (sequence 0..3, with and without the retransmit flag) *)
+Theorem C05_ack_frames : forall seq rt r, seq < 4 ->
+  let b := serialize (ack_frame seq rt) in
+  wf (ack_w seq rt) /\ b = spec_encode (ack_w seq rt) /\ length b = 7%nat /\
+  spec_decode (b ++ r) = Some (ack_w seq rt, r) /\ extract_frame_x (b ++ r) = XF (ack_w seq rt) 7 /\
+  fl_aseq (w_flags (ack_w seq rt)) = seq.
+Proof. exact ack_frame_wellformed. Qed.
+Print Assumptions C05_ack_frames.
+
+(* non-vacuity: a concrete command frame meets the hypotheses *)
+Example C05_instance : exists F, to_frame 65536 [1; 2; 3] = Some F /\ (65536 <> 0) /\ 65536 < 2 ^ 32.
+Proof. eexists. split; [reflexivity|]. split; [discriminate|reflexivity]. Qed.
